@@ -93,6 +93,9 @@ type tcase struct {
 	kind  string // program kind
 	feats map[string]bool
 	idx   int
+	// stack-boundary family (stackbound.go)
+	extra map[common.Address][]byte // further code installed next to the program (call entries)
+	probe *sbProbe                  // additional observation attached to the traced run
 }
 
 func (c *tcase) witness() map[string]any {
@@ -107,9 +110,15 @@ func (c *tcase) exec(gas uint64, mon *monitor) evmenv.Result {
 	var tr *tracing.Hooks
 	if mon != nil {
 		tr = mon.hooks()
+		if c.probe != nil {
+			c.probe.wrap(tr)
+		}
 	}
 	install := func(sdb *state.StateDB) {
 		sdb.SetCode(target, c.code, tracing.CodeChangeUnspecified)
+		for a, code := range c.extra {
+			sdb.SetCode(a, code, tracing.CodeChangeUnspecified)
+		}
 	}
 	val := new(big.Int).SetUint64(c.value)
 	switch c.entry {
@@ -329,7 +338,7 @@ type shared struct {
 }
 
 func run(r *vrt.Run) {
-	r.Rule("case = (rule set of 20 from tests.Forks round-robin, pre-state world of generated contracts, entry kind: faithful evm.Call/Create via runtime.NewEnv or API runtime.Call/Execute/Create, proggen program [structured/raw/mutated] or special [polluter, deep self-recursion by CALL*/CREATE, huge-memory operand, jump-heavy, closed program under astronomically large gas], input, value, gas limit class incl. boundaries 0/1/2300/21000/2^24 +-1 and 2^62..2^64-1); each case runs traced+monitored and untraced; 25% get three more boundary runs at used-1/used/used+1. non-trivial signature = (rule set, entry kind, termination class, max call depth bucket, max memory bucket)")
+	r.Rule("case = (rule set of 20 from tests.Forks round-robin, pre-state world of generated contracts, entry kind: faithful evm.Call/Create via runtime.NewEnv or API runtime.Call/Execute/Create, proggen program [structured/raw/mutated] or special [polluter, deep self-recursion by CALL*/CREATE, huge-memory operand, jump-heavy, closed program under astronomically large gas], input, value, gas limit class incl. boundaries 0/1/2300/21000/2^24 +-1 and 2^62..2^64-1); each case runs traced+monitored and untraced; 25% get three more boundary runs at used-1/used/used+1. non-trivial signature = (rule set, entry kind, termination class, max call depth bucket, max memory bucket). Directed operand-stack boundary family (stackbound.go, seed-independent grid, seed-dependent entry kind / world / input): for each of the 20 rule sets, each opcode byte 0x00..0xff and each immediate variant (PUSHn full/missing; Amsterdam DUPN/SWAPN/EXCHANGE all 256 immediates + missing) the program PUSH2 x depth; OP; JUMPDEST; STOP at depth need-1 / need / need+1 and 1024-net-1..1024 (need/net from proggen's own opcode table and the harness' EIP-8024 decode, never from the jump table), at top level and (depth <= 300) inside a nested CALL below whose stack the caller keeps canaries; signature = (rule set, instruction, depth class, outcome class, nested)")
 	worlds := map[string][]*evmenv.World{}
 	for _, rs := range evmenv.RuleSets {
 		for k := 0; k < worldsPerRuleSet; k++ {
@@ -363,6 +372,15 @@ func run(r *vrt.Run) {
 	only, trace := -1, os.Getenv("C27_TRACE") != ""
 	if v := os.Getenv("C27_ONLY"); v != "" {
 		fmt.Sscan(v, &only)
+	}
+	// C27_FAMILY=main|stackbound restricts the run to one family (development aid; such a run is
+	// inconclusive by its coverage obligations).
+	fam := os.Getenv("C27_FAMILY")
+	if fam == "" || fam == "stackbound" {
+		runStackBound(r, worlds)
+	}
+	if fam == "stackbound" {
+		n = 0
 	}
 	vrt.Par(n, 0, func(i int) {
 		if only >= 0 && i != only {
